@@ -65,6 +65,8 @@ func main() {
 					cases = append(cases, g.kernelCase(i))
 				case "kco":
 					cases = append(cases, g.coCase(i))
+				case "kslice":
+					cases = append(cases, g.sliceCase(i))
 				default:
 					cases = append(cases, g.Case(i))
 				}
